@@ -10,6 +10,25 @@ TRUST = ("trusts the Go type checker, go/cfg, go/ssa, the documented semantics o
 
 # property id -> (claimed text, technique, design_ref)   (only built properties appear here)
 CLAIMS = {
+    "C14": (
+        "Decides six exact crash / error shapes, not general panic-freedom: values handed to tax.Normalize (nullable members, elements of "
+        "document arrays) are nil-receiver-safe or provably non-nil; dereferenced currency definitions come from constants, definition "
+        "fields or codes checked on that path (interprocedural requirement propagation); no element removal inside a range over the same "
+        "slice; every panic() is init-only, a Must* API without runtime callers, a reviewed site, or follows a type dispatch that covers "
+        "every type its producer can return; every error returned by the exported root-package API is a keyed gobl error; nullable envelope "
+        "members (head, doc) are nil-tested before dereference in exported Envelope methods. 15 known findings (null array elements reach "
+        "non-nil-safe Normalize methods). Not decided: other dereferences of optional members, overflow, recursion depth, termination.",
+        "static analysis: nil-receiver safety by branch-fact dataflow, interprocedural precondition propagation for currency codes, shape lint, who-may-call for panic sites, return-origin analysis",
+        "§4 C14"),
+    "C20": (
+        "Decides: Negate assigns to every amount leaf of the summary types (enumerated from the struct declarations) the negation of that "
+        "same leaf, for every row; Merge combines every leaf of matched rows with Add of the operand's leaf after MatchPrecision, never "
+        "overwrites a possibly non-nil pointer leaf, for every row; Merge/Clone/Negate and their helpers install no operand-owned pointer or "
+        "slice to amount-carrying objects in the result and store nothing through operands; no result of a pure num method is discarded "
+        "anywhere in the module; payment line and payment totals accumulate with precision match on every line; the payment tax summary "
+        "is the Merge fold over clones of recalculated line summaries. Not decided: the numeric equalities themselves.",
+        "static analysis: field-coverage of struct walkers by value-origin tracking, ownership/aliasing rule, discarded-result lint, accumulator idiom check",
+        "§4 C20"),
     "C08": (
         "Decides: every success exit of Envelope.Validate/ValidateWithContext passes through and heeds Digest.Equals(header digest, "
         "freshly computed digest); Equals compares every field of Digest; the digest is SHA-256 over c14n.CanonicalJSON(json.Marshal("
